@@ -14,7 +14,7 @@ import mutation_check  # noqa: E402
 
 
 def do_import(a):
-    for tag in ("A", "B"):
+    for tag in ("A", "B", "C", "D", "E", "F"):
         diff = os.path.join(a.worktree, f"change_{tag}.diff")
         if not os.path.exists(diff) or os.path.getsize(diff) == 0:
             continue
@@ -26,8 +26,13 @@ def do_import(a):
             shutil.copy(demo, os.path.join(d, "demo.py"))
         mp = os.path.join(d, "meta.json")
         meta = json.load(open(mp)) if os.path.exists(mp) else {}
+        notes = os.path.join(a.worktree, "NOTES.md")
+        if os.path.exists(notes):
+            shutil.copy(notes, os.path.join(d, "NOTES.md"))
         meta.update({"property": a.pid, "source": "fresh sub-agent given only the property text and a scratch worktree",
-                     "description": getattr(a, "desc_" + tag) or meta.get("description", "")})
+                     "description": getattr(a, "desc_" + tag, "") or meta.get("description", "")})
+        if getattr(a, "verified", None):
+            meta["verified"] = a.verified
         meta.setdefault("detected_by", {})
         json.dump(meta, open(mp, "w"), indent=1)
         print("imported", d)
@@ -65,6 +70,9 @@ def main():
     i.add_argument("worktree")
     i.add_argument("--desc-A", dest="desc_A", default="")
     i.add_argument("--desc-B", dest="desc_B", default="")
+    for t in "CDEF":
+        i.add_argument("--desc-" + t, dest="desc_" + t, default="")
+    i.add_argument("--verified", default="", help="what was run to confirm the change (tools/seeded_verify.sh output)")
     c = sub.add_parser("check")
     c.add_argument("target", nargs="?")
     c.add_argument("--props")
